@@ -28,6 +28,20 @@
 (*              milliseconds, microseconds (value formatters EpochSeconds, *)
 (*              EpochMillis, EpochMicros; the plain Value impl = millis).  *)
 (*                                                                         *)
+(* Time sources.  Every one of these types CAPTURES its time source when it *)
+(* is created - resolution order at creation: explicit argument, else the   *)
+(* thread-local override, (else the tokio runtime's, else the system clock: *)
+(* not modelled) - and from then on reads only the captured source: the     *)
+(* stopwatch keeps `time_source`, instants keep the source they came from,   *)
+(* TimestampOnClose keeps `time_source`.  The model has two injected         *)
+(* sources, A (clock, W0) and B (clockB, W0B), and an environment that       *)
+(* changes the AMBIENT override under which the next operations run (amb:    *)
+(* A, B or none) and the thread that runs them (thr: the creating thread or  *)
+(* another thread with its own override).  The stopwatch is created from A.  *)
+(* Whatever the ambient override, every report is in terms of the captured   *)
+(* source.  Resolution = "ambient_first" is a deliberately wrong variant      *)
+(* (close-timestamps prefer the ambient override) used as negative model.    *)
+(*                                                                         *)
 (* None is -1.  Durations and wall-clock times are in ticks; the harness   *)
 (* chooses the length of a tick.                                           *)
 (***************************************************************************)
@@ -36,7 +50,11 @@ EXTENDS Integers, FiniteSets, Sequences, TLC
 CONSTANTS Slots,      \* guard slots (number of simultaneously live guards)
           Ds,         \* clock advances
           MaxClock,   \* bound on the clock (finite state space)
-          W0          \* wall clock (ticks since the epoch) at clock = 0
+          W0,         \* wall clock of source A (ticks since the epoch) at clock = 0
+          W0B,        \* wall clock of source B at clockB = 0
+          Ambients,   \* ambient overrides the environment may install: subset of {"A", "B", "none"}
+          Threads,    \* subset of {"main", "other"}
+          Resolution  \* "captured" (the code) | "ambient_first" (negative model)
 
 None == -1
 
@@ -53,11 +71,16 @@ VARIABLES
     tmSt, tmStart, tmDur, tmFirstStop,
     \* ---- timestamps
     tsAt,       \* Timestamp: wall clock captured at creation, None = no timestamp yet
-    tocSt       \* TimestampOnClose: "absent" | "live"
+    tocSt,      \* TimestampOnClose: "absent" | "live"
+    \* ---- environment and captured sources
+    clockB,     \* clock of source B
+    amb, thr,   \* ambient override / thread under which the next operations run
+    tmSrc, tocSrc   \* source captured by the timer / the close-timestamp
 
 swvars == <<repr, exclF, cellF, guards, pAny, pSum>>
-tmvars == <<tmSt, tmStart, tmDur, tmFirstStop, tsAt, tocSt>>
-vars == <<clock, swvars, tmvars>>
+tmvars == <<tmSt, tmStart, tmDur, tmFirstStop, tsAt, tocSt, tmSrc, tocSrc>>
+envvars == <<clockB, amb, thr>>
+vars == <<clock, swvars, tmvars, envvars>>
 
 Free == [st |-> "free", kind |-> "b", start |-> 0]
 
@@ -68,6 +91,7 @@ Init ==
     /\ pAny = FALSE /\ pSum = 0
     /\ tmSt = "absent" /\ tmStart = 0 /\ tmDur = None /\ tmFirstStop = None
     /\ tsAt = None /\ tocSt = "absent"
+    /\ clockB = 0 /\ amb = "A" /\ thr = "main" /\ tmSrc = "A" /\ tocSrc = "A"
 
 Live(s) == guards[s].st = "live"
 Borrowed == \E s \in Slots : Live(s) /\ guards[s].kind = "b"
@@ -78,7 +102,26 @@ NLive == Cardinality(Slots \ FreeSlots)
 Advance(d) ==
     /\ clock + d <= MaxClock
     /\ clock' = clock + d
-    /\ UNCHANGED <<swvars, tmvars>>
+    /\ UNCHANGED <<swvars, tmvars, envvars>>
+
+\* source B's clock moves independently
+AdvanceB(d) ==
+    /\ "B" \in Ambients /\ d > 0 /\ clockB + d <= MaxClock
+    /\ clockB' = clockB + d
+    /\ UNCHANGED <<clock, swvars, tmvars, amb, thr>>
+
+\* the environment: the following operations run under another thread-local override / on another thread
+SetAmbient(a, t) ==
+    /\ a \in Ambients /\ t \in Threads /\ <<a, t>> # <<amb, thr>>
+    /\ amb' = a /\ thr' = t
+    /\ UNCHANGED <<clock, clockB, swvars, tmvars>>
+
+ClockOf(s) == IF s = "A" THEN clock ELSE clockB
+WallOf(s) == IF s = "A" THEN W0 + clock ELSE W0B + clockB
+\* source captured by an object created now: the explicit argument (always A here) wins over the
+\* thread-local override; without either the object would fall back to tokio / the system clock
+CanCreate(how) == how = "explicit" \/ amb # "none"
+SrcAtCreation(how) == IF how = "explicit" THEN "A" ELSE amb
 
 (***************************************************************************)
 (* Stopwatch - implementation-shaped                                        *)
@@ -103,7 +146,7 @@ Release(s) == guards' = [guards EXCEPT ![s] = Free]
 Start ==
     /\ ~Borrowed /\ FreeSlots # {}
     /\ guards' = [guards EXCEPT ![NextSlot] = [st |-> "live", kind |-> "b", start |-> clock]]
-    /\ UNCHANGED <<clock, repr, exclF, cellF, pAny, pSum, tmvars>>
+    /\ UNCHANGED <<clock, repr, exclF, cellF, pAny, pSum, tmvars, envvars>>
 
 \* shared_cloned(): Exclusive(d) becomes Shared(Arc::new(Mutex::new(d.take())))
 StartOwned ==
@@ -111,7 +154,7 @@ StartOwned ==
     /\ IF repr = "excl" THEN repr' = "shared" /\ cellF' = exclF /\ exclF' = None
        ELSE UNCHANGED <<repr, exclF, cellF>>
     /\ guards' = [guards EXCEPT ![NextSlot] = [st |-> "live", kind |-> "o", start |-> clock]]
-    /\ UNCHANGED <<clock, pAny, pSum, tmvars>>
+    /\ UNCHANGED <<clock, pAny, pSum, tmvars, envvars>>
 
 Span(s) == clock - guards[s].start
 
@@ -122,7 +165,7 @@ Stop(s) ==
        IN SetCur(AfterDrop(Cur, captured, guards[s].start))
     /\ Release(s)
     /\ pAny' = TRUE /\ pSum' = pSum + Span(s)
-    /\ UNCHANGED <<clock, repr, tmvars>>
+    /\ UNCHANGED <<clock, repr, tmvars, envvars>>
 StopRet(s) == Span(s)
 
 \* drop(guard)
@@ -131,7 +174,7 @@ DropGuard(s) ==
     /\ SetCur(AfterDrop(Cur, None, guards[s].start))
     /\ Release(s)
     /\ pAny' = TRUE /\ pSum' = pSum + Span(s)
-    /\ UNCHANGED <<clock, repr, tmvars>>
+    /\ UNCHANGED <<clock, repr, tmvars, envvars>>
 
 \* guard.overwrite(): timer.take(), then Drop adds the guard's own span
 Overwrite(s) ==
@@ -139,21 +182,21 @@ Overwrite(s) ==
     /\ SetCur(AfterDrop(None, None, guards[s].start))
     /\ Release(s)
     /\ pAny' = TRUE /\ pSum' = Span(s)
-    /\ UNCHANGED <<clock, repr, tmvars>>
+    /\ UNCHANGED <<clock, repr, tmvars, envvars>>
 
 \* guard.discard(): self_time.take(); start.take(); Drop finds nothing to add
 Discard(s) ==
     /\ Live(s)
     /\ SetCur(AfterDrop(Cur, None, None))
     /\ Release(s)
-    /\ UNCHANGED <<clock, repr, pAny, pSum, tmvars>>
+    /\ UNCHANGED <<clock, repr, pAny, pSum, tmvars, envvars>>
 
 \* stopwatch.clear(): duration.take() (live guards keep ticking and add later)
 Clear ==
     /\ ~Borrowed
     /\ SetCur(None)
     /\ pAny' = FALSE /\ pSum' = 0
-    /\ UNCHANGED <<clock, repr, guards, tmvars>>
+    /\ UNCHANGED <<clock, repr, guards, tmvars, envvars>>
 
 \* CloseValue for &Stopwatch (Stopwatch.start is never set: the third arm yields None)
 CloseVal == IF repr = "excl" THEN exclF ELSE cellF
@@ -162,8 +205,11 @@ Kept == IF pAny THEN pSum ELSE None
 \* the stopwatch can be closed (observed) only while it is not mutably borrowed
 Observable == ~Borrowed
 
+\* the stopwatch was created from source A (Stopwatch::new_from_timesource(A), or Stopwatch::new()
+\* under the override A): every span above is measured on `clock`, whatever amb / thr are
 SwNext ==
-    \/ \E d \in Ds : Advance(d)
+    \/ \E d \in Ds : Advance(d) \/ AdvanceB(d)
+    \/ \E a \in Ambients, t \in Threads : SetAmbient(a, t)
     \/ Start \/ StartOwned \/ Clear
     \/ \E s \in Slots : Stop(s) \/ DropGuard(s) \/ Overwrite(s) \/ Discard(s)
 
@@ -181,60 +227,70 @@ SwInv == CloseVal = Kept
 (***************************************************************************)
 (* Timer                                                                    *)
 (***************************************************************************)
-TimerNew ==
-    /\ tmSt = "absent"
-    /\ tmSt' = "live" /\ tmStart' = clock /\ tmDur' = None /\ tmFirstStop' = None
-    /\ UNCHANGED <<clock, swvars, tsAt, tocSt>>
+TimerNew(how) ==
+    /\ tmSt = "absent" /\ CanCreate(how)
+    /\ tmSt' = "live" /\ tmSrc' = SrcAtCreation(how) /\ tmStart' = ClockOf(SrcAtCreation(how))
+    /\ tmDur' = None /\ tmFirstStop' = None
+    /\ UNCHANGED <<clock, swvars, tsAt, tocSt, tocSrc, envvars>>
 
-\* timer.stop(): idempotent; returns the stored duration
+\* timer.stop(): idempotent; returns the stored duration.  The start instant carries the captured
+\* source: elapsed() reads that source
+TimerElapsed == ClockOf(tmSrc) - tmStart
 TimerStop ==
     /\ tmSt = "live"
-    /\ tmDur' = IF tmDur # None THEN tmDur ELSE clock - tmStart
-    /\ tmFirstStop' = IF tmFirstStop # None THEN tmFirstStop ELSE clock
-    /\ UNCHANGED <<clock, swvars, tmSt, tmStart, tsAt, tocSt>>
-TimerStopRet == IF tmDur # None THEN tmDur ELSE clock - tmStart
+    /\ tmDur' = IF tmDur # None THEN tmDur ELSE TimerElapsed
+    /\ tmFirstStop' = IF tmFirstStop # None THEN tmFirstStop ELSE ClockOf(tmSrc)
+    /\ UNCHANGED <<clock, swvars, tmSt, tmStart, tmSrc, tsAt, tocSt, tocSrc, envvars>>
+TimerStopRet == IF tmDur # None THEN tmDur ELSE TimerElapsed
 
 \* CloseValue for &Timer
-TimerCloseVal == IF tmDur # None THEN tmDur ELSE clock - tmStart
-\* property layer: creation -> first stop, else creation -> now
-TimerReport == IF tmFirstStop # None THEN tmFirstStop - tmStart ELSE clock - tmStart
+TimerCloseVal == IF tmDur # None THEN tmDur ELSE TimerElapsed
+\* property layer: creation -> first stop, else creation -> now, on the captured source's clock
+TimerReport == IF tmFirstStop # None THEN tmFirstStop - tmStart ELSE ClockOf(tmSrc) - tmStart
 TimerInv == tmSt = "live" => TimerCloseVal = TimerReport
 
 (***************************************************************************)
 (* Timestamp, TimestampOnClose                                              *)
 (***************************************************************************)
-Wall == W0 + clock
 Units == {"Second", "Millisecond", "Microsecond"}
 \* how many of the unit make one second: the reported number is (time since epoch) * PerSecond
 PerSecond(u) == CASE u = "Second" -> 1 [] u = "Millisecond" -> 1000 [] u = "Microsecond" -> 1000000
 \* Second and Millisecond are printed as floating point numbers, Microsecond as a whole number
 Integral(u) == u = "Microsecond"
 
-TsNew ==
-    /\ tsAt = None
-    /\ tsAt' = Wall
-    /\ UNCHANGED <<clock, swvars, tmSt, tmStart, tmDur, tmFirstStop, tocSt>>
-TsCloseVal == tsAt                    \* wall clock at creation, whenever it is closed
+TsNew(how) ==
+    /\ tsAt = None /\ CanCreate(how)
+    /\ tsAt' = WallOf(SrcAtCreation(how))
+    /\ UNCHANGED <<clock, swvars, tmSt, tmStart, tmDur, tmFirstStop, tmSrc, tocSt, tocSrc, envvars>>
+TsCloseVal == tsAt                    \* wall clock at creation, whenever and wherever it is closed
 
+\* TimestampOnClose::default() captures the ambient source
 TocNew ==
-    /\ tocSt = "absent"
-    /\ tocSt' = "live"
-    /\ UNCHANGED <<clock, swvars, tmSt, tmStart, tmDur, tmFirstStop, tsAt>>
-\* closing consumes the TimestampOnClose and reports the wall clock at that moment
+    /\ tocSt = "absent" /\ CanCreate("ambient")
+    /\ tocSt' = "live" /\ tocSrc' = SrcAtCreation("ambient")
+    /\ UNCHANGED <<clock, swvars, tmSt, tmStart, tmDur, tmFirstStop, tmSrc, tsAt, envvars>>
+\* closing consumes the TimestampOnClose and reports the captured source's wall clock at that moment
 TocClose ==
     /\ tocSt = "live"
     /\ tocSt' = "absent"
-    /\ UNCHANGED <<clock, swvars, tmSt, tmStart, tmDur, tmFirstStop, tsAt>>
-TocCloseVal == Wall
+    /\ UNCHANGED <<clock, swvars, tmSt, tmStart, tmDur, tmFirstStop, tmSrc, tsAt, tocSrc, envvars>>
+TocCloseVal == IF Resolution = "ambient_first" /\ amb # "none" THEN WallOf(amb) ELSE WallOf(tocSrc)
+\* property layer: the injected (captured) source's wall clock at close
+TocReport == WallOf(tocSrc)
+TocInv == tocSt = "live" => TocCloseVal = TocReport
 
+Hows == {"explicit", "ambient"}
 TmNext ==
-    \/ \E d \in Ds : Advance(d)
-    \/ TimerNew \/ TimerStop \/ TsNew \/ TocNew \/ TocClose
+    \/ \E d \in Ds : Advance(d) \/ AdvanceB(d)
+    \/ \E a \in Ambients, t \in Threads : SetAmbient(a, t)
+    \/ \E how \in Hows : TimerNew(how) \/ TsNew(how)
+    \/ TimerStop \/ TocNew \/ TocClose
 
 TmSpec == Init /\ [][TmNext]_vars
 TmTypeOK ==
     /\ tmSt \in {"absent", "live"} /\ tocSt \in {"absent", "live"}
     /\ tmDur \in {None} \cup Nat /\ tsAt \in {None} \cup Nat
     /\ tmDur # None <=> tmFirstStop # None
-TmInv == TimerInv /\ (tsAt # None => tsAt >= W0 /\ tsAt <= Wall)
+    /\ amb \in Ambients /\ thr \in Threads /\ tmSrc \in {"A", "B"} /\ tocSrc \in {"A", "B"}
+TmInv == TimerInv /\ TocInv
 =============================================================================
